@@ -313,6 +313,13 @@ func constructorWiring(specs ...wiringSpec) func(c *Ctx, id string) {
 					continue
 				}
 				o := w.Origin(v)
+				if pv := w.throughLayers(v); pv != v {
+					// proven pass-through layers (a literal of a transparent layer type, a pass-through wrapper) around
+					// the parameter are looked through
+					if po := w.Origin(pv); strings.HasPrefix(po, "param(") && !strings.Contains(po, ".") && !strings.Contains(po, "call(") {
+						continue
+					}
+				}
 				if !strings.HasPrefix(o, "param(") || strings.Contains(o, ".") || strings.Contains(o, "call(") {
 					// a layer that is proven to hand every call on untouched (C20.R20) around the parameter is the parameter
 					if call, isCall := unwrap(v).(*ssa.Call); isCall {
@@ -1703,7 +1710,7 @@ func neverRecovers(c *Ctx, id string) {
 	var bad []string
 	for _, fn := range w.ModFuncs {
 		allInstrs(fn, func(in ssa.Instruction) {
-			if _, isP := in.(*ssa.Panic); isP {
+			if isPanicLike(in) {
 				nPanic++
 			}
 			if cc := callOf(in); cc != nil {
